@@ -647,8 +647,12 @@ CONTRACTS = [_iter_solutions, _transform, _importer_init, _prepare, _import_modu
 def register(reg):
     from pyvc.values import MNS, MFn, SV
     import z3
-    reg.names['re'] = MNS('re', {'sub': MFn('spec', 're.sub', spec=FnSpec(
-        're.sub', params=[('pattern', STR), ('repl', STR), ('s', STR)], ret=STR, pure=True, assumed=True))})
+    _re_sub = MFn('spec', 're.sub', spec=FnSpec(
+        're.sub', params=[('pattern', STR), ('repl', STR), ('s', STR)], ret=STR, pure=True, assumed=True))
+    if isinstance(reg.names.get('re'), MNS):
+        reg.names['re'].members['sub'] = _re_sub        # several sidecars contribute members of `re`
+    else:
+        reg.names['re'] = MNS('re', {'sub': _re_sub})
     reg.names['remove_python_path_suffix'] = _remove_suffix_spec
     reg.names['_level_to_base_import_path'] = FnSpec(
         '_level_to_base_import_path', params=[('project_path', PATH), ('directory', PATH), ('level', INT)],
